@@ -512,9 +512,35 @@ ASSUME_RAW = ASSUME_COMMON + [
     "buffers are 8-aligned and surrounded by guard bytes"]
 
 
+def raw_random_leg(rep, checks, tier):
+    """randomly drawn deeper schemas (vf/gen.py): layout, raw offset tables and
+    canonical image pairs computed by TLC, replayed into the raw C++ codec"""
+    from . import randwire
+    pid = rep.pid
+    groups, stats = randwire.raw_groups(tier, 53)
+    for st in stats:
+        rep.add_tlc(st)
+    results = wire.run_batches(rawwire.worker, groups, randwire._VS(), {"checks": checks, "scratch": scratch_dir("raw")},
+                               nbatch=16, timeout=3000)
+    for r in results:
+        if "crash" in r:
+            rep.violation({"what": "worker crashed or hung: %s" % r["crash"], "groups": r["groups"]})
+            continue
+        rep.count(r["n_cases"])
+        rep.validated(r["n_cases"])
+        for gid in r["nontrivial"]:
+            rep.nontrivial("raw:%s" % gid)
+        for f in r["fails"]:
+            rep.violation(f, shadows.match(pid, f))
+        for k, n in r.get("n_checked", {}).items():
+            rep.cov["raw_random_checked_" + k] = rep.cov.get("raw_random_checked_" + k, 0) + n
+    rep.cov["raw_random_schemas"] = len(groups)
+
+
 def _run_raw(pid, tier, checks, rule):
     rep = Report(pid, tier)
     rep.assumptions = ASSUME_RAW
+    raw_random_leg(rep, checks, tier)
     vs = wire.generate_layouts(tier) if checks == ["offsets"] else wire.generate(tier, light=True)
     wire.add_reproducers(vs, pid)
     for st in vs.stats:
